@@ -97,3 +97,10 @@ Print Assumptions C01_gfm_parser_model_total.
 Theorem C01_convert_gfm_model_total : forall xc c src, bytes_ok src -> exists o, ConvertModelX xc c src = Ok o.
 Proof. exact ConvertModelX_total. Qed.
 Print Assumptions C01_convert_gfm_model_total.
+
+(* and with extension.Footnote (model/FootnoteI.v) - including the nested definitions whose
+   list -> footnote -> list cycle in the heap the tree walks have to survive *)
+Require Import GM.model.FootnoteI GM.proofs.FootnoteWf.
+Theorem C01_convert_footnote_model_total : forall c src, bytes_ok src -> exists o, ConvertModelFn c src = Ok o.
+Proof. exact ConvertModelFn_total. Qed.
+Print Assumptions C01_convert_footnote_model_total.
